@@ -221,6 +221,59 @@ def availability_rule(ctx: Ctx, rule: str) -> None:
                 ctx.add(rule, f'{name}:availability', guarded and uses_util, (f.file, c.lineno),
                         f'each term of the nest sum is conditioned on {av}[{idx}] of the same alternative' if guarded and uses_util
                         else f'term of the nest sum is not conditioned on {av}[{idx}]: {unparse(elt)[:90]}', detail=unparse(elt))
+            # sibling: apart from the guard the two branches sum the same term
+            ncomps = [c for st in none_branch for c in ast.walk(st) if isinstance(c, ast.ListComp)]
+            if len(ncomps) != len(comps):
+                ctx.add(rule, f'{name}:branches', False, (f.file, n.lineno), f'the branch without availabilities builds {len(ncomps)} sum(s), the other {len(comps)}', 'count')
+            for cn, ca in zip(ncomps, comps):
+                elt = ca.elt
+                if isinstance(elt, ast.Call) and call_name(elt) == 'ConditionalTermTuple':
+                    bare = next((k.value for k in elt.keywords if k.arg == 'term'), elt.args[1] if len(elt.args) > 1 else None)
+                else:
+                    fac = []
+
+                    def flat2(e):
+                        if isinstance(e, ast.BinOp) and isinstance(e.op, ast.Mult):
+                            flat2(e.left)
+                            flat2(e.right)
+                        else:
+                            fac.append(e)
+
+                    flat2(elt)
+                    ia = unparse(ca.generators[0].target.elts[0]) if isinstance(ca.generators[0].target, ast.Tuple) else unparse(ca.generators[0].target)
+                    rest = [x for x in fac if unparse(x) != f'{av}[{ia}]']
+                    bare = None
+                    for x in rest:
+                        bare = x if bare is None else ast.BinOp(left=bare, op=ast.Mult(), right=x)
+
+                def canon(e, comp):
+                    # comprehension variables by position, so that the two branches may name them differently
+                    tg = comp.generators[0].target
+                    names = [t.id for t in (tg.elts if isinstance(tg, ast.Tuple) else [tg]) if isinstance(t, ast.Name)]
+                    txt = ast.dump(e) if e is not None else ''
+                    for k, nm in enumerate(names):
+                        txt = txt.replace(f"Name(id='{nm}'", f"Name(id='$v{k}'")
+                    return txt
+
+                def factors_of(e):
+                    out = []
+
+                    def go(x):
+                        if isinstance(x, ast.BinOp) and isinstance(x.op, ast.Mult):
+                            go(x.left)
+                            go(x.right)
+                        else:
+                            out.append(x)
+
+                    if e is not None:
+                        go(e)
+                    return out
+
+                same = sorted(canon(x, ca) for x in factors_of(bare)) == sorted(canon(x, cn) for x in factors_of(cn.elt)) and unparse(ca.generators[0].iter) == unparse(cn.generators[0].iter)
+                ctx.add(rule, f'{name}:branches', same, (f.file, cn.lineno),
+                        'with and without availabilities the nest sum has the same term over the same alternatives' if same
+                        else f'the nest sum without availabilities has the term {unparse(cn.elt)[:80]}, with availabilities {unparse(bare)[:80] if bare is not None else "?"}: the model changes when availabilities all equal to 1 are passed',
+                        detail='' if same else unparse(cn.elt))
             for st in none_branch:
                 if av in {x.id for x in ast.walk(st) if isinstance(x, ast.Name)}:
                     ctx.add(rule, f'{name}:availability:none', False, (f.file, st.lineno), f'{av} is used although it is None', unparse(st)[:80])
@@ -347,6 +400,9 @@ def run(ctx: Ctx) -> None:
     ctx.rule('C05.R3', 'availability conditioning: in the availability branch every term of a nest sum is guarded by availability[i] of the same i; '
              'the kernel receives the availabilities unchanged; h_i = V_i + ln G_i with the same key')
     ctx.rule('C05.R4', 'LogLogit.get_value returns a log-probability (<= 0, -inf for an unavailable chosen alternative)')
+    ctx.rule('C05.R6', 'the logit kernel gets, for every alternative, the ids of its own utility and of its own availability: record templates and constructor plumbing of the '
+             'logit classes agree with the engine reader (obligations of C01.R2-R4 restricted to LogLogit, _bioLogLogit, _bioLogLogitFullChoiceSet) - zero probability '
+             'for an unavailable alternative depends on this pairing')
     ctx.rule('C05.R5', 'ordered models: entries telescope (1-F(x-t0), F(x-t_k)-F(x-t_k+1), F(x-t_last)) with t_k+1 = t_k + non-negative free increment')
     ctx.not_decided += ['range and sum of the logit kernel itself (engine)', 'MEV models with user-supplied generating terms']
     twin_rule(ctx, 'C05.R1')
@@ -361,6 +417,18 @@ def run(ctx: Ctx) -> None:
     _loglogit_value(sub)
     for o in sub.obligations:
         ctx.add('C05.R4', o.construct, o.ok, (o.file, o.line), o.message, o.detail)
+    # the logit kernel receives, for every alternative, its own utility and its own availability (record of the logit classes)
+    from . import c01
+
+    sub1 = Ctx(ctx.prog, ctx.prop, ctx.tier)
+    c01.run(sub1)
+    n_rec = 0
+    for o in sub1.obligations:
+        if ('LogLogit' in o.construct) and o.rule in ('C01.R2', 'C01.R3', 'C01.R4'):
+            n_rec += 1
+            ctx.add('C05.R6', o.construct, o.ok, (o.file, o.line), o.message, o.detail)
+    if n_rec < 10:
+        raise AnalysisError(f'C05.R6: only {n_rec} record obligations of the logit classes found')
     ordered_rule(ctx, 'C05.R5')
     ctx.floor('C05.R5', 10)
 
